@@ -210,6 +210,16 @@ def main(tier):
         groups.append({"id": "wm%d" % g, "cases": [dict(rel.case("cm%d" % (g + j), t), mem=True) for j, t in enumerate(memtexts[g:g + 8])],
                        "reps": 3, "readers": 0, "cold": 6})
     chk.extra["projects_from_one_byte_slice_in_memory"] = len(memtexts)
+    # types whose many properties carry rules, inherited once, twice (a chain) and into an array item: the rules of the
+    # heirs are first looked up by name by 16 goroutines at the same moment
+    def ruled(n):
+        return "".join('  "p%d": %d%s // {min: 1, max: %d, optional: true}\n' % (i, 5, "," if i < n - 1 else "", 9 + i) for i in range(n))
+    ruletexts = []
+    for n in (3, 40, 250):
+        ruletexts.append('JSIGHT 0.3\nTYPE @zbase\n{\n%s}\nTYPE @zheir\n{ // {allOf: "@zbase"}\n  "own": 1 // {min: 0}\n}\nGET /zx\n  200 @zheir\n' % ruled(n))
+        ruletexts.append('JSIGHT 0.3\nTYPE @zbase\n{\n%s}\nTYPE @zmid\n{ // {allOf: "@zbase"}\n  "m": "s" // {minLength: 1}\n}\nTYPE @zheir\n{ // {allOf: "@zmid"}\n  "own": 1\n}\n'
+                         'TYPE @zarr\n{\n  "items": [\n    { // {allOf: "@zbase"}\n      "nk": 1 // {nullable: true}\n    }\n  ]\n}\nGET /zx\n  200 @zheir\n' % ruled(n))
+    groups.insert(0, {"id": "wr0", "cases": [rel.case("cr%d" % j, t) for j, t in enumerate(ruletexts)], "reps": 2, "readers": 16})
     obs4 = harness("conc", groups)
     for g in groups:
         o = obs4[g["id"]]
